@@ -46,8 +46,9 @@ type rbox struct {
 type refDoc struct {
 	boxes []*rbox // pre-order, boxes[0] = body
 	comp  []int   // union-find over margin nodes
-	// ambiguous: the document holds a height:0 box without padding/border whose in-flow
-	// children are all collapsed through (see adjoining)
+	// ambiguous: the document holds a box of used height 0 without padding/border whose
+	// in-flow children are all collapsed through, or an empty box whose percentage height
+	// resolves to 0 (see adjoining)
 	ambiguous bool
 }
 
@@ -226,8 +227,17 @@ func (d *refDoc) adjoining(emptyReading bool) {
 		// "top and bottom margins of a box that does not establish a new block formatting
 		// context and that has zero computed min-height, zero or auto computed height, and
 		// no in-flow children"
-		if len(r.kids) == 0 && !r.hasLine && r.pt == 0 && r.pb == 0 && r.heightZeroOrAuto() {
-			d.union(top(r), bottom(r))
+		if len(r.kids) == 0 && !r.hasLine && r.pt == 0 && r.pb == 0 {
+			// a percentage height that resolves to 0px does not "compute" to zero (the
+			// computed value is the percentage); implementations look at the used value:
+			// second ambiguous case, same treatment
+			zeroPct := r.spec.h.k == dPct && !r.hAuto && r.hv == 0
+			if zeroPct {
+				d.ambiguous = true
+			}
+			if r.heightZeroOrAuto() || zeroPct && emptyReading {
+				d.union(top(r), bottom(r))
+			}
 		}
 	}
 	for changed := true; changed; {
@@ -237,7 +247,7 @@ func (d *refDoc) adjoining(emptyReading bool) {
 		}
 		for i := len(d.boxes) - 1; i >= 0; i-- {
 			r := d.boxes[i]
-			if r.through || len(r.kids) == 0 || r.hasLine || r.pt != 0 || r.pb != 0 || !(r.spec.h.k == dPx && r.spec.h.v == 0) {
+			if r.through || len(r.kids) == 0 || r.hasLine || r.pt != 0 || r.pb != 0 || r.hAuto || r.hv != 0 {
 				continue
 			}
 			all := true
